@@ -30,6 +30,13 @@ ACCEPTED_ORDER = {
     "wn._db:_check_schema_compatibility:join-of-hash-ordered-collection":
         'text of the error raised for an incompatible database file, not an API result',
 }
+ACCEPTED_ORDER.update({
+    "wn.taxonomy:_shortest_hyp_paths:stable-sort-with-key-over-hash-ordered-collection (ties)":
+        'sorted(common, key=_synset_sort_key): the key (rowid, ILI) is different for different synsets of one Wordnet '
+        '(real synsets differ in rowid, inferred placeholders share rowid 0 and differ in ILI) - no ties',
+    "wn.taxonomy:common_hypernyms:stable-sort-with-key-over-hash-ordered-collection (ties)":
+        'sorted(common, key=_synset_sort_key): see _shortest_hyp_paths',
+})
 ACCEPTED_STATE = {
     'wn._db:connect:module-state-write:pool': 'connection pool keyed by database path (infrastructure, no query result '
                                               'depends on it: C04/C09 prove results are functions of the database)',
